@@ -32,3 +32,36 @@ def run_driver(lines, timeout=600):
     if p.returncode != 0:
         raise RuntimeError(f'driver failed ({p.returncode}): {p.stderr.decode()[:2000]}')
     return p.stdout.decode('utf-8').split('\n')[:-1]
+
+
+class WorkBudgetExceeded(RuntimeError):
+    """raised inside a REAL solve that made more line attempts than any terminating solve of that size could:
+    the harness treats it as a failure of termination / bounded work, never as tool trouble"""
+
+
+WORK_BUDGET = int(os.environ.get('VERIF_WORK_BUDGET', '60000'))
+
+
+def install_work_budget():
+    """wrap habutax.solver.Solver._attempt_field once, process-wide, with a per-solver attempt counter; harness
+    modules that patch the method themselves wrap this wrapper (they save and restore whatever they found)"""
+    try:
+        from habutax import solver as hsolver
+    except Exception:  # noqa: BLE001  (a tree that does not import is reported by the checks themselves)
+        return
+    if getattr(hsolver.Solver._attempt_field, '_verif_budget', False):
+        return
+    inner = hsolver.Solver._attempt_field
+
+    def counted(self, field, *a, **kw):
+        n = getattr(self, '_verif_attempts', 0) + 1
+        self._verif_attempts = n
+        if n > WORK_BUDGET:
+            raise WorkBudgetExceeded(f'more than {WORK_BUDGET} line attempts in one solve (last: {field.name()})')
+        return inner(self, field, *a, **kw)
+
+    counted._verif_budget = True
+    hsolver.Solver._attempt_field = counted
+
+
+install_work_budget()
